@@ -8,7 +8,8 @@ PROP = dict(
     lean_module="AbraProofs.Properties.C31",
     required_theorems=["C31_doc_table_matches_code", "C31_parser_total", "C31_parse_print_prefix", "C31_parse_print",
                        "C31_neg_literal_uniform", "C31_neg_literal_examples", "C31_fold_breaks_table",
-                       "C31_code_agrees_with_reference", "C31_code_extends_reference", "C31_reference_atom_blind"],
+                       "C31_code_agrees_with_reference", "C31_code_extends_reference", "C31_reference_atom_blind",
+                       "C31_newlines_at_operand_start", "C31_newline_ends_expression", "C31_continuation_examples"],
     harness_bin="c31",
     # the model's answer on malformed token lists (err/partial) is more than the property fixes; a
     # violation of the property itself is found by the harness's own oracle (tree vs. parser, value vs.
